@@ -1,6 +1,8 @@
 import NimaVerif.Lemmas.Mapping
 /-! Helper lemmas for the dictionary laws of C14 (list level: `values` of a set, `target.scope`). -/
 namespace Nima
+-- name tokens are compared by spelling in this file (see `NameCmp` in Model/Edit.lean)
+attribute [local instance] NameCmp.spelled
 
 open Node EditM
 
@@ -57,7 +59,7 @@ theorem mem_keysOf_iff_top {vs : List Node} (hne : noEntriesL vs = true) (k : Te
       left
       simp only [itemKeys, List.mem_singleton] at hk
       subst hk
-      simp only [findBinding, List.find?_isSome]
+      simp only [findBinding_spelled, List.find?_isSome]
       exact ⟨_, hx, by simp [isBind, bindName?]⟩
     | inherit i ns =>
       right
@@ -210,7 +212,7 @@ theorem findBinding_remove_other (l₁ l₂ : List Node) {b : Node} {k k' : Text
     findBinding (l₁ ++ l₂) k' = findBinding (l₁ ++ b :: l₂) k' := by
   have : (some k == some k') = false := by
     simp only [beq_eq_false_iff_ne, ne_eq, Option.some.injEq]; exact fun h => hk h.symm
-  simp [findBinding, List.find?_append, hn, this]
+  simp [findBinding_spelled, List.find?_append, hn, this]
 
 theorem inheritMentions_remove_bind (l₁ l₂ : List Node) {b : Node} (k' : Text)
     (hb : b.isBind = true) :
@@ -296,7 +298,7 @@ theorem del_shape {d : Doc} {k : Text} (hok : (setDelItem d.target k d).1 = .ok 
       refine ⟨sid, o, m, r, b, bid, l₁, l₂, by rw [hvs], hbb, hbn, hid, ?_⟩
       rw [← ht, setDelItem_existing d (by rw [ht]; exact hb) hid (sid := sid) (by simp [ht, setSid?])]
       simp [Doc.updSet, ht, updSet, delItemFn, setValues, he]
-    | _ => simp [ht, setValues, findBinding] at hb
+    | _ => simp [ht, setValues, findBinding_spelled] at hb
 
 theorem scope_del_shape {d : Doc} {k : Text} (hok : (scopeDelItem k d).1 = .ok ())
     (hd : DistinctItems d.scope = true) :
